@@ -3,7 +3,7 @@ from vlib import *
 import iongen
 import binlib
 
-THEOREMS = ["C06bin_never_panics_default", "C06bin_every_call_returns_default", "C06bin_call_preserves_invariant", "C08bin_skip_equals_read", "C08bin_step_out_lands"]
+THEOREMS = ["C03bin", "C03bin_limits_sound", "C03bin_stageA", "C03bin_stageC", "C03bin_ex", "C06bin_never_panics_default", "C06bin_every_call_returns_default", "C06bin_call_preserves_invariant", "C08bin_skip_equals_read", "C08bin_step_out_lands"]
 LEVEL = "other"
 EXPLANATION = ("K2: the binary reader model (Bin/BitStream.v + Bin/BinReader.v) against the real Reader on the plain "
                "full traversal of encodings produced by an independent spec-derived encoder with randomised legal "
